@@ -4,6 +4,7 @@ package main
 // the harness files; SSA is rebuilt on every run. /repo is never written to.
 
 import (
+	"bytes"
 	"fmt"
 	"os"
 	"path/filepath"
@@ -48,6 +49,16 @@ func harnessOverlay(native bool) (map[string][]byte, error) {
 		}
 		target := filepath.Join(repoDir, dir, "zz_verif_"+filepath.Base(path))
 		ov[target] = b
+		if bytes.Contains(b, []byte("//verif:use luasym")) {
+			// shared harness source: the Lua interpreter and Redis model
+			lua, err := os.ReadFile(filepath.Join(root, "luasym.go.txt"))
+			if err != nil {
+				return err
+			}
+			if m := pkgClause.FindSubmatch(b); m != nil {
+				ov[filepath.Join(repoDir, dir, "zz_verif_luasym.go")] = []byte(strings.Replace(string(lua), "package PKGNAME", "package "+string(m[1]), 1))
+			}
+		}
 		rtTarget := filepath.Join(repoDir, dir, "zz_verif_rt.go")
 		if _, ok := ov[rtTarget]; !ok {
 			m := pkgClause.FindSubmatch(b)
